@@ -192,7 +192,7 @@ class LexModel:
             # another helper of lexer.py that is handed the modelled variables: the language of its `return True`
             if isinstance(f, ast.Name) and f.id in self.repo.module("lexer").functions and not e.keywords \
                     and all(isinstance(a, ast.Name) and a.id in sym for a in e.args):
-                hfn = self.repo.module("lexer").functions[f.id]
+                hfn = self.repo.full_function("lexer", f.id)
                 hp = [a.arg for a in hfn.args.args]
                 if len(hp) == len(e.args) and self.depth < 6:
                     hsym = {p_: sym[a.id] for p_, a in zip(hp, e.args)}
@@ -275,10 +275,18 @@ class LexModel:
                 return SL.EMPTY
             if isinstance(st, ast.Assign) and len(st.targets) == 1 and isinstance(st.targets[0], ast.Name):
                 name = st.targets[0].id
-                if isinstance(st.value, (ast.BoolOp, ast.Compare, ast.UnaryOp)) or (
-                        isinstance(st.value, ast.Call) and isinstance(st.value.func, ast.Attribute)
-                        and (st.value.func.attr.startswith("is_") or st.value.func.attr in ("char_allowed", "startswith", "endswith"))):
-                    self.bools[name] = self.cond(st.value, sym)      # a named condition
+                v = st.value
+                if isinstance(v, (ast.BoolOp, ast.Compare, ast.UnaryOp)) or (isinstance(v, ast.Constant) and isinstance(v.value, bool)) \
+                        or (isinstance(v, ast.Name) and v.id in self.bools) or (
+                        isinstance(v, ast.Call) and ((isinstance(v.func, ast.Attribute)
+                        and (v.func.attr.startswith("is_") or v.func.attr in ("char_allowed", "startswith", "endswith")))
+                        or (isinstance(v.func, ast.Name) and (v.func.id in self.repo.module("lexer").functions or v.func.id == "bool")))):
+                    # a named condition; assigned on some paths only, it holds where it was assigned true (languages of x
+                    # are path conditions, so the value is kept per language of arrival)
+                    c = self.cond(v, sym)
+                    V = SIGMA if c is True else (SL.EMPTY if c is False else c)
+                    old = self.bools.get(name, SL.EMPTY)
+                    self.bools[name] = (old - reach) | (reach & V)
                     continue
                 if name in sym and sym[name] in ("CHAR", "NEXT", "LEXEME", "TOKEN", "PRESERVE", "G", "D", "TEXT"):
                     raise AnalysisError(f"LEX1: `{norm(st, 60)}` rebinds a modelled variable before the end-of-lexeme decision")
@@ -289,7 +297,7 @@ class LexModel:
 
     def continue_language(self):
         """C: x = lexeme.next for which lex_continue() returns True (non-preserving state)."""
-        fn = self.repo.function("lexer", "lex_continue")
+        fn = self.repo.full_function("lexer", "lex_continue")
         params = [a.arg for a in fn.args.args]
         if len(params) != 6:
             raise AnalysisError("lex_continue signature changed; LEX1 needs (char, next_char, lexeme, token, preserve, g)")
